@@ -1,23 +1,24 @@
 #!/bin/sh
-# tools/ingest_seeded.sh <Cxx> [extra checks...]: verify the sub-agent's bugs for Cxx, store them, run the checks
-P="$1"; shift; EXTRA="$*"
-for B in /tmp/wt-out/$P/bug*; do
+# tools/ingest_seeded.sh <Cxx> [suffix] [extra checks...]: verify the sub-agent's bugs for Cxx (worktree
+# /tmp/wt/Cxx<suffix>, deliverables /tmp/wt-out/Cxx<suffix>/bugN), store them as seeded/Cxx-<k>, run the checks
+P="$1"; SUF="$2"; shift; [ $# -gt 0 ] && shift; EXTRA="$*"
+for B in /tmp/wt-out/$P$SUF/bug*; do
   [ -d "$B" ] || continue
-  n=$(basename $B | sed 's/bug//')
-  echo "### $P-$n"
-  if tools/verify_seeded.sh /tmp/wt/$P $B; then
-    d=seeded/$P-$n; mkdir -p $d; cp $B/patch.diff $B/demo.rs $d/
-    python3 - "$P" "$n" <<'PY'
+  k=1; while [ -d seeded/$P-$k ]; do k=$((k+1)); done
+  echo "### $P-$k  ($B)"
+  if tools/verify_seeded.sh /tmp/wt/$P$SUF $B; then
+    d=seeded/$P-$k; mkdir -p $d; cp $B/patch.diff $B/demo.rs $d/
+    python3 - "$P" "$k" "$B" <<'PY'
 import json,sys
-p,b=sys.argv[1],sys.argv[2]
-try: m=json.load(open(f'/tmp/wt-out/{p}/bug{b}/meta.json'))
+p,k,b=sys.argv[1],sys.argv[2],sys.argv[3]
+try: m=json.load(open(f'{b}/meta.json'))
 except Exception as e: m={'summary':'(meta.json unreadable: %s)'%e}
 m['breaks_property']=p
 m['origin']='independent sub-agent given only the property text and a scratch worktree'
 m['confirmed_by_me']={'how':'tools/verify_seeded.sh <scratch worktree> <dir>: demo passes on the unchanged tree, patch applies, cargo build (default and --features verif) ok, cargo test --lib shows 41 passed, demo fails with the patch','result':'confirmed'}
-json.dump(m,open(f'/verif/seeded/{p}-{b}/meta.json','w'),indent=1)
+json.dump(m,open(f'/verif/seeded/{p}-{k}/meta.json','w'),indent=1)
 PY
-    for c in $P $EXTRA; do tools/mutate.sh $d/patch.diff $c 2>&1 | grep -E "VIOLATION|quick:|ERROR" | cut -c1-220; done
+    for c in $P $EXTRA; do tools/mutate.sh $d/patch.diff $c 2>&1 | grep -E "VIOLATION|quick:|ERROR|error:" | cut -c1-220; done
   else
     echo "NOT CONFIRMED: $B"
   fi
